@@ -621,3 +621,68 @@ func (p *Program) AllocFields(t *Term) map[string][]*Term {
 	}
 	return out
 }
+
+// FuncsWithGo: the functions of root's region plus the same-package functions it starts as
+// goroutines (and their regions). For rules about what happens "in or on behalf of" root, not
+// about paths through it.
+func (p *Program) FuncsWithGo(root *ssa.Function, depth int) []*ssa.Function {
+	seen := map[*ssa.Function]bool{}
+	var out []*ssa.Function
+	var addRegion func(fn *ssa.Function, d int)
+	addRegion = func(fn *ssa.Function, d int) {
+		for _, f := range p.RegionOf(fn, depth).Funcs() {
+			if seen[f] {
+				continue
+			}
+			seen[f] = true
+			out = append(out, f)
+			if d <= 0 {
+				continue
+			}
+			eachInstr(f, func(in ssa.Instruction) {
+				g, ok := in.(*ssa.Go)
+				if !ok {
+					return
+				}
+				t := g.Call.StaticCallee()
+				if t == nil && !g.Call.IsInvoke() {
+					if cl := p.TermOf(g.Call.Value).Resolve("closure"); cl != nil {
+						t = cl.Fn
+					}
+				}
+				if t != nil && !seen[t] && p.isHelperOf(root, t) {
+					addRegion(t, d-1)
+				}
+			})
+		}
+	}
+	addRegion(root, 2)
+	return out
+}
+
+// UpParam: a parameter of an unexported function with a single static call site in the module is the
+// argument passed there (in the caller's vocabulary); applied repeatedly, up to three levels.
+// Other terms, and parameters of functions called from several places, are returned unchanged.
+func (p *Program) UpParam(t *Term) *Term {
+	for d := 0; d < 3; d++ {
+		s := t.Strip()
+		if s.Op != "param" || s.Fn == nil || s.Fn.Object() == nil || s.Fn.Object().Exported() {
+			return t
+		}
+		var site *ssa.CallCommon
+		n := 0
+		for _, f := range p.ModFuncs {
+			eachInstr(f, func(in ssa.Instruction) {
+				if cc := callCommon(in); cc != nil && cc.StaticCallee() == s.Fn {
+					n++
+					site = cc
+				}
+			})
+		}
+		if n != 1 || s.Idx >= len(site.Args) {
+			return t
+		}
+		t = p.TermOf(site.Args[s.Idx])
+	}
+	return t
+}
